@@ -21,7 +21,8 @@ RULE = ("A real Zeroconf with 1..3 services (TTL >= 10 s; loop-back delay of its
         "back transmissions: immediate (same instant), aggregated (+20..+500 ms), protected (>= sighting+1000 ms, <= arrival+"
         "1200 ms), TC (released 400..500 ms after the last packet, or at a non-TC packet). D1: every obligation is served in its "
         "window; D2: every multicast answer is justified by an obligation's window (so nothing is sent early, during a TC hold, "
-        "or although listed as known answer); D4: no record twice in one datagram. Distinct = (class, queue state, gap bucket, TC "
+        "or although listed as known answer); D4: no record twice in one datagram. Trains also come back to back from one source "
+        "(first completed by its final packet, second left to its timer). Distinct = (class, queue state, gap bucket, TC "
         "shape, loop-back delay) classes.")
 ASSUMPTIONS = ["service TTLs >= 10 s (below 4 s the QU rule and the one-second rule contradict each other)",
                "1 ms slack on every window for float rounding"]
